@@ -11,6 +11,9 @@ import (
 // Starts every case for real (forkexec.Runner directly, probe as target) and writes one
 // Observe line per launch.
 func c04Main(args []string) error {
+	if err := setLauncherGroups(); err != nil {
+		return fmt.Errorf("setgroups: %w", err)
+	}
 	if len(args) < 4 {
 		return fmt.Errorf("usage: c04 cases obs scratch probe [strace]")
 	}
